@@ -17,6 +17,9 @@ C={
  'C04':('exploration','structure-aware input mutation under crash, allocation and stability monitors',
         'Mutated encodings (every length field x hostile values, truncations, overwrites, random) are decoded in child processes with a panic monitor, an exact TotalAlloc meter against 256KiB+64B/byte and the decode-encode-decode stability equation; DecodeDir size field swept exhaustively.',
         'trusted: allocation bound constants are an instantiation of "small constant plus linear"; sampled except the 16-bit size sweep'),
+ 'C05':('exploration','online exactly-once / tag-distinctness monitor at a scripted fake server, race detector',
+        'A real CSession client runs against a scripted raw-wire server: concurrent callers with unique ids, replies in PRNG permutations, Rerror replies, abandoned calls answered late, and tag-wrap runs of 70k-200k calls with long-outstanding (partly abandoned) calls pinning tags; the monitor checks tag distinctness among requests still awaiting a reply, NOTAG never used, every call returning its own id, completion at quiescence, plus race reports in the transport.',
+        'trusted: fake server as judge of which tags await a reply; unique ids in requests and replies; refcodec'),
  'C06':('exploration','scripted-handler conservation monitor over the wire log (exactly-once per (tag, epoch)), race detector',
         'Scripts of requests, duplicates, bursts and PRNG-ordered completions against the real ServeConn with a gate-controlled Handler; after each stimulus the harness waits for quiescence and checks handler invocations and replies against a conservation monitor: one dispatch with the message sent, one reply with own tag and exactly the handler result or error text, duplicates refused without dispatch.',
         'trusted: refcodec for wire parsing; quiescence from goroutine states; replies kept within msize'),
